@@ -129,6 +129,30 @@ def make_jobs(ctx, sc):
     return jobs
 
 
+def smoke_job(ctx, sc, nruns=6):
+    """translator validation: the generated program, compiled natively, runs under pseudo-random schedules (blocked threads skipped);
+    no oracle may fire and every thread must finish in the runs that are long enough"""
+    import random, copy as _c
+
+    def fn():
+        sc2 = _c.copy(sc)
+        sc2.R = 60
+        fin = bad = 0
+        fails = []
+        for seed in range(nruns):
+            rnd = random.Random(ctx.seed * 1000 + seed)
+            nd = [65535 if seed == 0 else rnd.choice([65535, 65535, 0, rnd.randint(1, 90)]) for _ in range(4000)]
+            o, d = native_run(ctx, sc2, nd, sc.name + '.smoke%d' % seed, env_extra={'VF_AUTOSKIP': '1'})
+            if o == 'clean' and 'alldone=1' in d:
+                fin += 1
+            elif o in ('assert', 'crash', 'builderror'):
+                bad += 1
+                fails.append({'confirmed': False, 'key': 'smoke', 'detail': 'native smoke run %d of %s: %s %s' % (seed, sc.name, o, d[-300:])})
+        return {'status': 'pass' if bad == 0 and fin > 0 else 'error', 'obligations': nruns, 'discharged': nruns - bad, 'native_runs': nruns, 'native_runs_all_threads_finished': fin,
+                'failures': fails}
+    return vf.Job(sc.name + '_native_smoke', fn, expect='pass', meta={'scenario': sc.name, 'kind': 'translator validation: native execution of the generated program under random schedules'})
+
+
 def native_run(ctx, sc, nd, tag, env_extra=None):
     out_c, _ = gen_c(ctx, sc)
     exe = ctx.path('replay', tag + '.exe')
